@@ -140,9 +140,7 @@ impl MulSpecImpl<&BigUint> for &BigUint {
 }
 impl Mul<&BigUint> for &BigUint {
     type Output = BigUint;
-    //@ assume BigUint:Mul<&BigUint>for(&BigUint) : impl_mul! leaf (src/biguint/multiplication.rs): dispatch on empty / one-digit / general operands by slice patterns (outside the Verus subset) to scalar_mul (proved, k_mul) and mul3 (proved against the assumed mac3)
-    #[verifier::external_body]
-    fn mul(self, other: &BigUint) -> (r: BigUint) ensures r.wf(), r.v() == self.v() * other.v() { unimplemented!() }
+//@ stub u_mul/mul_rr
 }
 impl MulAssignSpecImpl<&BigUint> for BigUint {
     open spec fn obeys_mul_assign_spec() -> bool { false }
@@ -150,9 +148,7 @@ impl MulAssignSpecImpl<&BigUint> for BigUint {
     open spec fn mul_assign_spec(&self, rhs: &BigUint) -> &BigUint { arbitrary() }
 }
 impl MulAssign<&BigUint> for BigUint {
-    //@ assume BigUint:MulAssign<&BigUint> : impl_mul_assign! leaf (slice-pattern dispatch, see Mul)
-    #[verifier::external_body]
-    fn mul_assign(&mut self, other: &BigUint) ensures final(self).wf(), final(self).v() == old(self).v() * other.v() { unimplemented!() }
+//@ stub u_mul/mul_assign_r
 }
 
 // local model of num_integer::Integer::{is_even, is_odd} and num_traits::{Zero::is_zero, One::is_one} on u64 (external crates)
